@@ -15,6 +15,7 @@ import (
 	"golang.org/x/crypto/ssh"
 	"golang.org/x/crypto/ssh/agent"
 
+	"github.com/theparanoids/ysshra/csr"
 	"github.com/theparanoids/ysshra/gensign"
 	"github.com/theparanoids/ysshra/keyid"
 	"github.com/theparanoids/ysshra/verifharness/lib/ev"
@@ -39,6 +40,7 @@ type reqRec struct {
 	IDs         map[string]string   `json:"configured_identifiers"`
 	Result      string              `json:"result"`
 	KeyID       string              `json:"key_id,omitempty"`
+	ViaWire     bool                `json:"decoded_from_the_wire_message,omitempty"`
 }
 
 // slowAgent: the requester's agent takes more than a second to accept the new key. However long the run waits for it,
@@ -204,6 +206,10 @@ func one(r *ev.Run, c *ev.Case, i int, mu *sync.Mutex, seenKeys map[string]int) 
 			continue // two spellings of one algorithm: which wins is not specified
 		}
 		id := "slot-" + gen.Ident(rng, 6)
+		if rng.Intn(5) == 0 {
+			// slot names are opaque text: nothing in them refers to the process environment, a home directory or a pattern
+			id = []string{"ssh-user-rsa$v2", "${HOME}", "$PATH", "slot$$" + gen.Ident(rng, 3), "~/slot", "slot-*", "%h-slot", "slot " + gen.Ident(rng, 2), "$" + gen.Ident(rng, 4), "`id`"}[rng.Intn(10)]
+		}
 		ids[randCase(rng, nm)] = id
 		want[int(a)] = id
 	}
@@ -228,6 +234,12 @@ func one(r *ev.Run, c *ev.Case, i int, mu *sync.Mutex, seenKeys map[string]int) 
 	}
 	defer rig.Close()
 	ps := gsrig.ParamSpec{LogName: logName, ReqUser: str(24), ReqHost: str(40), ClientIP: gen.IP(rng), TransID: gen.Ident(rng, 10), Policy: "NONS", CAAlgo: []int{0, 1, 2, 3, 4, 5, 0, 1, 3, 17, -1}[rng.Intn(11)]}
+	if rng.Intn(6) == 0 {
+		// names with white space at their ends are names all the same ("recorded verbatim")
+		ws := []string{" ", "\t", "\u00a0", "\n", "\u0085", "  "}
+		ps.ReqUser = ws[rng.Intn(6)] + ps.ReqUser
+		ps.ReqHost = ps.ReqHost + ws[rng.Intn(6)]
+	}
 	if len(want) > 0 && rng.Intn(10) < 6 {
 		var ks []int
 		for k := range want {
@@ -323,6 +335,18 @@ func one(r *ev.Run, c *ev.Case, i int, mu *sync.Mutex, seenKeys map[string]int) 
 		param.Attrs = a
 		param.SignatureAlgo = a.SignatureAlgo // as csr.NewReqParam copies it
 		rec.ClientAttrs = a
+	}
+	if rec.ClientAttrs == nil && ps.ReqUser != "" && ps.ReqHost != "" && ps.CAAlgo >= 0 && rng.Intn(2) == 0 {
+		// the request as it arrives: a current-format message in SSH_ORIGINAL_COMMAND, decoded by the RA's own entry
+		// point. What the message declares is what must be recorded; the transaction id is the one the RA drew.
+		line, _ := json.Marshal(map[string]any{"ifVer": 7, "username": ps.ReqUser, "hostname": ps.ReqHost, "sshClientVersion": "8.1", "caPubKeyAlgo": ps.CAAlgo, "hardKey": false})
+		env := map[string]string{"SSH_ORIGINAL_COMMAND": string(line), "LOGNAME": logName, "SSH_CONNECTION": ps.ClientIP + " 50000 10.0.0.1 22"}
+		if np, nerr := csr.NewReqParam(func(k string) string { return env[k] }, func() []string { return []string{"gensign", "-c", "/usr/bin/gensign NONS Regular"} }); nerr == nil && np != nil && np.TransID != "" {
+			param = np
+			ps.TransID, rec.TransID = np.TransID, np.TransID
+			rec.ViaWire = true
+			r.Count("requests decoded from the wire message by the RA's own entry point", 1)
+		}
 	}
 	runErr, escaped := gsrig.Run(param, []gensign.Handler{rig.Handler}, rig.Signer)
 	rec.Result = gsrig.Kind(runErr)
